@@ -140,7 +140,7 @@ for fn in ("normalize_chunks", "auto_chunks", "blockdims_from_blockshape"):
 # ---- C19: validity conditions of the native banded window kernels -------------------------------------------
 swm = repo.mod("dask_array.reductions._sliding_window")
 for fn in ("supports_native_sliding_window", "supports_native_moving_window"):
-    add("C19", swm.func(fn), ("return",), pred=lambda s, ek, text: ek in ("return False", "return True"),
+    add("C19", swm.func(fn), ("return",), pred=lambda s, ek, text: ek in ("return False", "return True", "break"), extra=lambda s: isinstance(s, ast.Break),
         why="the banded decomposition is valid only when every output-emitting block is shorter than the window (and sizes are known, the array holds a window)")
 
 os.makedirs(os.path.dirname(FIXTURE), exist_ok=True)
